@@ -3,6 +3,7 @@ package main
 import (
 	"fmt"
 	"math"
+	"sort"
 	"strings"
 
 	"verif/harness/lib"
@@ -212,6 +213,70 @@ func (g *gen) writePath() any {
 	return g.pick(writePaths)
 }
 
+// mapish: a small map (sometimes inside a list) with null values among the members.
+func (g *gen) mapish() any {
+	m := map[string]any{}
+	n := 1 + g.r.Intn(3)
+	for i := 0; i < n; i++ {
+		var v any
+		switch g.r.Intn(4) {
+		case 0, 1:
+			v = nil
+		case 2:
+			v = g.intLit()
+		default:
+			v = g.data(1)
+		}
+		m[g.pick(keyPool)] = v
+	}
+	if g.pct(25) {
+		return []any{int64(1), m}
+	}
+	return m
+}
+
+// nearMiss: a deep copy of v with one small change that keeps sizes where it can: a key renamed (its
+// value kept, or the renamed member made null), a value replaced by null, or nothing changed.
+func (g *gen) nearMiss(v any) any {
+	c := mustTree(render(v))
+	var m map[string]any
+	switch t := c.(type) {
+	case map[string]any:
+		m = t
+	case []any:
+		for _, x := range t {
+			if mm, ok := x.(map[string]any); ok {
+				m = mm
+			}
+		}
+	}
+	if m == nil || len(m) == 0 {
+		return c
+	}
+	keys := make([]string, 0, len(m))
+	for k := range m {
+		keys = append(keys, k)
+	}
+	sortStrings(keys)
+	k := keys[g.r.Intn(len(keys))]
+	switch g.r.Intn(5) {
+	case 0: // same members
+	case 1: // key renamed, value kept
+		nk := k + "_"
+		m[nk] = m[k]
+		delete(m, k)
+	case 2: // key renamed, the new member holds a value (the old one may have been null)
+		delete(m, k)
+		m[g.pick([]string{"zz", "q", "k2"})] = g.intLit()
+	case 3: // value made null
+		m[k] = nil
+	default: // key renamed, the new member null
+		delete(m, k)
+		m[g.pick([]string{"zz", "q", "k2"})] = nil
+	}
+	return c
+}
+
 // kinds of expression asked for
 const (
 	kAny = iota
@@ -295,6 +360,9 @@ func (g *gen) expr(depth, want int) any {
 	case kArr:
 		if leaf {
 			if g.pct(50) {
+				if g.pct(20) {
+					return []any{"get", g.pick([]string{"$.src.l", "$.src.m", "$.src.l[0]"})}
+				}
 				return g.pick([]string{"$.src.l", "$.src.l", "$.asm.q", "@.src", "$.src.m", "@.src.l"})
 			}
 			n := g.r.Intn(4)
@@ -463,7 +531,19 @@ func (g *gen) call(f string, depth int) any {
 		return a(xs...)
 	case "equal", "eq", "==", "neq", "!=":
 		n := g.r.Intn(4) + 1
-		switch g.r.Intn(4) {
+		switch g.r.Intn(6) {
+		case 4, 5:
+			// a container and a near miss of it (one key renamed, a value made null, an element dropped),
+			// in either order, as literals or fetched by path
+			x := g.mapish()
+			y := g.nearMiss(x)
+			if g.pct(30) {
+				x = g.pick([]string{"$.src.m", "$.src.l", "$.src", "$.src.l[0]"})
+			}
+			if g.r.Bool() {
+				x, y = y, x
+			}
+			return a(x, y)
 		case 0:
 			return a(g.args(n, depth, kNum)...)
 		case 1:
@@ -760,6 +840,131 @@ func usesFn(v any, names map[string]bool) bool {
 	return false
 }
 
+// framePlan: a plan WITHOUT any mutator in which function f gets data under $.src by reference — a path
+// or [get path] — wherever it takes a list, a map or any value. Whatever f does, $.src must read the
+// same afterwards (non-interference of the functions not documented to modify their target).
+func (g *gen) framePlan(f string) []any {
+	L := func() any {
+		p := g.pick([]string{"$.src.l", "$.src.l", "$.src.ls", "$.src.lm", "$.src.m", "$.src.lm[0]", "$.src"})
+		if g.pct(30) {
+			return []any{"get", p}
+		}
+		return p
+	}
+	a := func(xs ...any) any { return append([]any{f}, xs...) }
+	var call any
+	switch f {
+	case "sort":
+		call = a(L(), g.pick([]string{"@", "@.a", "@.x", "@[0]"}))
+	case "reverse", "size", "string", "array?", "map?", "list", "join", "float", "int", "quote", "inspect":
+		call = a(L())
+	case "append":
+		call = a(L(), g.scalar())
+	case "include":
+		call = a(L(), g.scalar())
+	case "nth":
+		call = a(L(), g.pickAny([]any{int64(0), int64(-1), int64(1)}))
+	case "each":
+		call = a(L(), g.pickAny([]any{[]any{"sum", "@.src", int64(1)}, []any{"size", "@.src"}, []any{"sort", "@.src", "@"},
+			[]any{"reverse", "@.src"}, []any{"get", "@.src.a"}}))
+	case "get", "getall":
+		call = a(g.pick([]string{"$", "$[0]", "$.a", "$.*", "@"}), L())
+	case "equal", "eq", "==", "neq", "!=":
+		call = a(L(), L())
+	case "cond":
+		call = a([]any{true, []any{g.pick([]string{"sort", "reverse"}), L(), "@"}})
+	case "asm":
+		call = a(L(), []any{g.pick([]string{"reverse", "size", "sort"}), "@", "@"})
+	default:
+		call = g.call(f, 1+g.r.Intn(2))
+	}
+	switch g.r.Intn(3) {
+	case 0:
+		return []any{call}
+	case 1:
+		return []any{call, []any{"size", L()}}
+	}
+	return []any{[]any{"list", call, L()}}
+}
+
+// frameRoot: unsorted lists (numbers, strings, maps keyed a/x) and maps with null members under $.src.
+func (g *gen) frameRoot() map[string]any {
+	ints := []any{}
+	for i, n := 0, 2+g.r.Intn(4); i < n; i++ {
+		ints = append(ints, int64(g.r.Intn(20))-5)
+	}
+	strs := []any{}
+	for i, n := 0, 2+g.r.Intn(3); i < n; i++ {
+		strs = append(strs, g.pick([]string{"d", "b", "zz", "a", "c", "B"}))
+	}
+	lm := []any{}
+	for i, n := 0, 2+g.r.Intn(3); i < n; i++ {
+		lm = append(lm, map[string]any{"a": int64(g.r.Intn(9)), "x": g.pick([]string{"q", "b", "k", "a"})})
+	}
+	src := map[string]any{"l": ints, "ls": strs, "lm": lm, "m": map[string]any{"x": nil, "y": int64(2), "z": []any{int64(3), int64(1), int64(2)}}, "a": int64(1)}
+	if g.pct(30) {
+		src["l"] = []any{[]any{int64(3)}, []any{int64(1)}, []any{int64(2)}}
+	}
+	return map[string]any{"src": src}
+}
+
+// srcSafeMutators: every mutator call of the plan names its target by a literal path that is not under
+// $.src and not the whole root/local value. In the streams that never store a reference to existing
+// data (alias == false) such a plan cannot reach $.src, so $.src must read the same after the run.
+func srcSafeMutators(v any) bool {
+	switch t := v.(type) {
+	case []any:
+		if len(t) > 0 {
+			if s, ok := t[0].(string); ok && mutators[s] {
+				if len(t) < 2 {
+					return true // wrong arity: an error before anything is written
+				}
+				p, ok := t[1].(string)
+				if !ok {
+					return false
+				}
+				safe := false
+				for _, pre := range []string{"$.asm", "$.x", "$.y", "@.asm", "@.x", "@.k"} {
+					if p == pre || strings.HasPrefix(p, pre+".") || strings.HasPrefix(p, pre+"[") {
+						safe = true
+					}
+				}
+				if !safe {
+					return false
+				}
+			}
+		}
+		for _, x := range t {
+			if !srcSafeMutators(x) {
+				return false
+			}
+		}
+	case map[string]any:
+		for _, x := range t {
+			if !srcSafeMutators(x) {
+				return false
+			}
+		}
+	}
+	return true
+}
+
+// eqBoxValues: maps and lists with null members and near-miss key sets, for the exhaustive equality box.
+func eqBoxValues() []any {
+	m := func(kv ...any) any {
+		out := map[string]any{}
+		for i := 0; i+1 < len(kv); i += 2 {
+			out[kv[i].(string)] = kv[i+1]
+		}
+		return out
+	}
+	one := int64(1)
+	return []any{m(), m("a", one), m("a", nil), m("b", nil), m("b", one), m("a", one, "b", nil), m("a", one, "c", int64(2)),
+		m("a", one, "c", nil), m("a", one, "b", int64(2)), m("a", nil, "b", nil), m("c", nil, "a", one),
+		m("a", m("k", nil)), m("a", m("j", one)), m("a", m()), []any{m("a", nil)}, []any{m("b", one)}, []any{nil}, []any{}, nil,
+		m("a", []any{nil}), m("a", []any{})}
+}
+
 // boxValues: the argument values of the exhaustive function box (every kind, with the boundary values).
 func boxValues() []any {
 	return []any{nil, true, false, int64(0), int64(1), int64(-3), int64(1<<53 + 1), 1.5, math.Copysign(0, -1), float64(1 << 53),
@@ -767,5 +972,7 @@ func boxValues() []any {
 }
 
 func fmtPlan(p any) string { return show(render(p)) }
+
+func sortStrings(xs []string) { sort.Strings(xs) }
 
 var _ = fmt.Sprint
